@@ -9,8 +9,58 @@ FAMILIES = [('untils', 260, 5500, {}), ('timers', 60, 500, {'till_p': 0.6})]
 MONITORS = ['C07']
 
 
+def flag_untils(rng, n):
+    """directed family: `until(flag)` / `until(~flag)` blocks whose flag is switched back and forth by another activity,
+    before the block is entered, while its body sleeps, and several times within one time step"""
+    out = []
+    for _ in range(n):
+        nf = rng.choice([1, 2])
+        f = rng.randrange(nf)
+        cond = ['flag', f] if rng.random() < 0.5 else ['not', ['flag', f]]
+        pre = [['set_flag', f, True]] if rng.random() < 0.5 else []
+        d_enter = rng.choice([0, 0, 1, 2])
+        body = [['await', ['delay', rng.choice([3, 6, 9])]], ['log', 1]]
+        if rng.random() < 0.3:
+            body = [['do', 1, 1, ['now'], rng.random() < 0.3, [['await', ['delay', 5]], ['log', 2]]]] + body
+        owner = pre + ([['await', ['delay', d_enter]]] if d_enter else []) + [['until', 1, cond, body], ['log', 3]]
+        toggler = []
+        for _ in range(rng.choice([1, 2, 3, 4])):
+            if rng.random() < 0.7:
+                toggler.append(['await', ['delay', rng.choice([1, 1, 2, 3])]])
+            toggler.append(['set_flag', rng.randrange(nf), rng.random() < 0.5])
+            toggler.append(['log', 10 + len(toggler)])
+        roots = [owner, toggler] if rng.random() < 0.5 else [toggler, owner]
+        out.append(('flag-untils', dict(start=0, till=None, roots=roots, nflags=nf, tracked=[0], nlocks=1, nqueues=1,
+                                        nchans=1, res=[])))
+    return out
+
+
+def teardown_spawns(rng, n):
+    """directed family: an until-block ended by its notification while a child reacts to being closed by spawning into
+    that very scope from its cleanup code: "its children are closed" includes that such a late payload never runs"""
+    out = []
+    for _ in range(n):
+        d = rng.choice([1, 2, 3])
+        cond = rng.choice([['delay', d], ['after', d], ['flag', 0]])
+        late = [['log', 1], ['await', ['delay', 1]], ['log', 2]]
+        child = [['try', [['await', rng.choice([['eternity'], ['delay', 9]])]], [], [['do', 1, 2, ['now'], rng.random() < 0.3, late]]]]
+        body = [['do', 1, 1, ['now'], rng.random() < 0.3, child]]
+        if rng.random() < 0.5:
+            body.append(['do', 1, 3, ['now'], False, [['await', ['delay', 7]], ['log', 3]]])
+        body += [['await', ['delay', 8]], ['log', 4]]
+        owner = [['until', 1, cond, body], ['log', 5], ['await', ['delay', 4]], ['log', 6]]
+        roots = [owner]
+        if cond[0] == 'flag':
+            roots.append([['await', ['delay', d]], ['set_flag', 0, True]])
+        out.append(('teardown-spawns', dict(start=0, till=None, roots=roots, nflags=1, tracked=[0], nlocks=1, nqueues=1,
+                                            nchans=1, res=[])))
+    return out
+
+
 def run(ctx):
-    machine_prop.run(ctx, FAMILIES, MONITORS)
+    machine_prop.run(ctx, FAMILIES, MONITORS, extra_scenarios=flag_untils(ctx.rng, ctx.n(60, 1200)))
+    # "its children are closed": C04's monitor (nothing of a child runs after the block was left) on the directed family
+    machine_prop.run(ctx, [], MONITORS + ['C04'], extra_scenarios=teardown_spawns(ctx.rng, ctx.n(30, 500)))
     # dates that are inexact in binary floating point: the block must end at EXACTLY the date (implementation only)
     machine_prop.run(ctx, [('untils', 200, 3000, {'float_times': True})], MONITORS + ['C01'], model=False)
 
